@@ -165,6 +165,12 @@ def unit_validate(cmode, amode):
 
         @L.fn("check_array")
         def _ca(E, st, args, kw, node):
+            """check_array(a, dtype=bool) of an integer matrix: a NEW boolean array, True exactly at the non-zero entries (numpy's astype(bool));
+            otherwise the validated array itself (validation only)"""
+            a = as_array(args[0], st)
+            if kw.get("dtype") is not None and a.kind == "i" and a.ndim == 2:
+                r = ArrData(a.shape, lambda i, j, a=a: to_int(a.sel(i, j)) != 0, "b")
+                return st.alloc(r)
             return args[0]
 
         @L.fn("check_indices")
@@ -230,9 +236,16 @@ def unit_validate(cmode, amode):
             st.assume(z3.ForAll([tv], z3.Implies(z3.And(0 <= tv, tv < k), z3.And(0 <= to_int(a_.sel(tv)), to_int(a_.sel(tv)) < na))))   # valid annotator indices
             ann = st.alloc(a_)
             ctxh["ann"] = a_
-        elif amode == "matrix":
+        elif amode in ("matrix", "matrix_int"):
             rows = n if cmode == "none" else m
-            a_ = ArrData((rows, na), fresh_sel("avail", "b", 2), "b")
+            if amode == "matrix":
+                a_ = ArrData((rows, na), fresh_sel("avail", "b", 2), "b")
+                ctxh["avail"] = lambda i, j: z3bool(a_.sel(i, j))
+            else:       # the availability matrix handed over as a 0/1 integer array-like: the validation has to convert it
+                a_ = ArrData((rows, na), fresh_sel("avail01", "i", 2), "i")
+                ti, tj = z3.Ints("av_i av_j")
+                st.assume(z3.ForAll([ti, tj], z3.Or(to_int(a_.sel(ti, tj)) == 0, to_int(a_.sel(ti, tj)) == 1)))
+                ctxh["avail"] = lambda i, j: to_int(a_.sel(i, j)) != 0
             ann = st.alloc(a_)
             ctxh["annm"] = a_
         ctxh.update(n=n, na=na, bs=bs, m=m, k=k, y=yd, ml=ml)
@@ -276,7 +289,7 @@ def unit_validate(cmode, amode):
                 continue
             bs_s = ctx["bs_s"]
             E.oblige("C07.validate.batch_size_clipped_to_the_candidate_pairs", st, to_int(bs2) == z3.If(pairs < bs_s, pairs, bs_s))
-            if amode == "matrix":
+            if amode in ("matrix", "matrix_int"):
                 ad = st.get(a2)
                 E.oblige("C07.validate.availability_matrix_boolean_same_shape", st, z3.And(z3.BoolVal(ad.kind == "b" and ad.ndim == 2),
                          to_int(ad.shape[0]) == nrows, to_int(ad.shape[1]) == na))
@@ -286,15 +299,15 @@ def unit_validate(cmode, amode):
                     r, t, j = z3.Ints("vr vt vj")
                     E.oblige("C07.validate.matrix_rows_follow_the_sorted_candidates", st, z3.ForAll([r, t, j], z3.Implies(
                         z3.And(0 <= r, r < nrows, 0 <= t, t < m, 0 <= j, j < na, to_int(cg.sel(t)) == to_int(cs.sel(r))),
-                        z3bool(ad.sel(r, j)) == z3bool(A0.sel(t, j)))))
+                        z3bool(ad.sel(r, j)) == ctx["avail"](t, j))))
                 else:
                     i, j = z3.Ints("vi vj")
                     E.oblige("C07.validate.matrix_unchanged", st, z3.ForAll([i, j], z3.Implies(z3.And(0 <= i, i < n, 0 <= j, j < na),
-                             z3bool(ad.sel(i, j)) == z3bool(ctx["annm"].sel(i, j)))))
+                             z3bool(ad.sel(i, j)) == ctx["avail"](i, j))))
     return se_unit(f"multiannot._validate_data.{cmode}.{amode}", FB, "MultiAnnotatorPoolQueryStrategy._validate_data",
                    "MultiAnnotatorPoolQueryStrategy", setup, post, lib_factory=lib)
 
 
 for c_ in ("none", "idx"):
-    for a_ in ("none", "idx", "matrix"):
+    for a_ in ("none", "idx", "matrix", "matrix_int"):
         UNITS[f"_validate_data.{c_}.{a_}"] = unit_validate(c_, a_)
